@@ -288,6 +288,22 @@ def consumers_rule(ctx):
         if fv is not None:
             rule_taken_reaches(dep(ctx, "C06", "C10"), "C10.I", fv, who,
                                lambda n: n.get("k") == "for" and "MinimiserGenerator<" in n.get("iter_ty", ""), "run loop")
+            rule_spawn_count(dep(ctx, "C06", "C10"), "C10.L", fv, who)
+    # .. which needs a worker: `threads 0 = auto` is translated before the spawn loops, the defaults are >= 1
+    from . import c10
+    fs2_, fm2_ = ctx.view(c10.S2M), ctx.view(c10.M2S)
+    if fs2_ is not None and fm2_ is not None:
+        c10.agree_rule(dep(ctx, "C06", "C10"), fs2_, fm2_)
+    for path, who, tag in ((c07.CHUNK, "count_chunk", "C07"), (c05.MMAP, "vectorise_mmap", "C05")):
+        fw_ = ctx.view(path)
+        if fw_ is not None:
+            rule_spawn_count(dep(ctx, "C06", tag), tag + ".L", fw_, who)
+    for adt in ("counter::CountComputer", "coverage::CovComputer", "composition::oligo::OligoComputer",
+                "composition::cgr::CgrComputer", "composition::oligocgr::OligoCgrComputer"):
+        rule_threads_default(ctx, "C06.W", adt)
+    # the sizing pass of the mapped writer reads the SAME stream as the writing pass (same opener: gzip, stdin)
+    if fm is not None:
+        c05.stats_rule(dep(ctx, "C06", "C05"), fm)
 
 
 
